@@ -404,8 +404,8 @@ Four == <<4, 0, 0, 0>>
 \* spellings that differ from the manual's mnemonic (the operation is the same)
 Spelling(m) == CASE m = "c.bneqz" -> "c.bnez" [] m = "bneq" -> "bne" [] OTHER -> m
 
-Asm0(mn0, ops, sym, pc) ==
-    LET m == Spelling(mn0)  ks == Kinds(ops)  n == Len(ops)
+AsmB(m, ks, ops, sym, pc) ==
+    LET n == Len(ops)
         v(j) == ops[j][2]
         rrr == ks = <<"r", "r", "r">>   rri == ks = <<"r", "r", "i">>   rir == ks = <<"r", "i", "r">>
         rrl == ks = <<"r", "r", "l">>   rr == ks = <<"r", "r">>         ri == ks = <<"r", "i">>
@@ -485,6 +485,7 @@ Asm0(mn0, ops, sym, pc) ==
     ELSE IF m = "c.addi16sp" THEN IF ks = <<"i">> THEN Ins(m, 2, 2, 0, v(1), 2)
                                   ELSE IF ri THEN Ins(m, v(1), v(1), 0, v(2), 2) ELSE NoAsm
     ELSE NoAsm
+Asm0(mn0, ops, sym, pc) == CHOOSE r \in {AsmB(m, ks, ops, sym, pc) : m \in {Spelling(mn0)}, ks \in {Kinds(ops)}} : TRUE
 
 \* an unknown CSR name is outside the modelled syntax
 Asm(mn0, ops, sym, pc) == LET r == Asm0(mn0, ops, sym, pc) IN IF InTab(CsrMn, r.mn) /\ r.imm < 0 THEN NoAsm ELSE r
@@ -550,10 +551,10 @@ Taken(m, a, b) ==
 
 \* One step.  i0 is a decoded instruction (compressed ones are executed as their expansion,
 \* with the 2-byte length for the fall-through / link address).  st = "ok" | "outofmodel".
-Exec(s, i0) ==
-    LET i == Expand(i0)  m == i.mn
+ExecB(s, i, len) ==
+    LET m == i.mn
         a == Reg(s, i.rs1)  b == Reg(s, i.rs2)  immw == W4(i.imm)
-        next == WAdd(s.pc, W4(i.len))
+        next == WAdd(s.pc, W4(len))
         Ok(pc, x, mem) == [st |-> "ok", pc |-> pc, x |-> x, mem |-> mem]
         addr == WAdd(a, immw)
     IN
@@ -573,6 +574,9 @@ Exec(s, i0) ==
     ELSE IF m = "sh"  THEN Ok(next, s.x, StoreBytes(s.mem, addr, <<b[1], b[2]>>, 1))
     ELSE IF m = "sw"  THEN Ok(next, s.x, StoreBytes(s.mem, addr, b, 1))
     ELSE [st |-> "outofmodel", pc |-> s.pc, x |-> s.x, mem |-> s.mem]      \* traps, CSRs, illegal
+\* (TLC re-evaluates LET definitions and operator arguments on every use: values that are used often
+\* are bound through a singleton set, which is evaluated exactly once)
+Exec(s, i0) == CHOOSE t \in {ExecB(s, i, i0.len) : i \in {Expand(i0)}} : TRUE
 
 \* Architectural source / destination registers (x0 is a constant, never a dependency).
 \* csrr?i carry a 5-bit immediate in the rs1 slot.
